@@ -40,10 +40,12 @@ SIMPLE_CFG_STEPS = [
 
 
 def src_of(case):
-    return case.get("cfg") or case.get("tc") or case.get("hist") or case.get("tw")
+    return case.get("cfg") or case.get("tc") or case.get("hist") or case.get("tw") or (("gold", case["gold"]) if "gold" in case else None)
 
 
 def cfg_class(cfg):
+    if isinstance(cfg, tuple) and cfg and cfg[0] == "gold":
+        return "gold:" + cfg[1][:4]
     if isinstance(cfg, dict) and "w" in cfg and "cfg" in cfg:
         return "twins:" + "".join(str(x) for x in cfg["w"])
     if isinstance(cfg, list):
@@ -70,6 +72,7 @@ class ByteChanSpec(Spec):
             "vc2_conformance.encoder.make_sequence (sender; seeded small configurations incl. mixed-geometry sequences, padding/auxiliary units, colour specs, 1-39 bit depths)",
             "vc2_conformance.test_cases decoder test-case generators for eight corpus columns (sender; 16% of workloads)",
             "simulation B's data-unit channel over real encoder output (sender; 20% of workloads)",
+            "a frozen corpus of 64 conformant streams (corpus/gold; 4% of workloads): bytes written by the unchanged tree's encoder, so that a sender-side break cannot hide a receiver-side one",
             "vc2_conformance.bitstream.autofill_and_serialise_stream (sender)",
             "vc2_conformance.decoder.parse_stream (validating decoder)",
             "vc2_conformance.bitstream Deserialiser/Serialiser + vc2.parse_stream",
@@ -162,6 +165,13 @@ class ByteChanSpec(Spec):
                     return {"hist": {"cfg": cfg, "units": units}}
             except W.WorkloadError:
                 pass
+        if 0.42 <= r < 0.46:
+            # a stream of the frozen corpus (bytes produced by the unchanged
+            # tree's encoder: independent of the sender under test)
+            names = W.gold_names()
+            name = names[rng.randrange(len(names))]
+            if not name.startswith("wide") or rng.random() < 0.15:
+                return {"gold": name}
         if 0.36 <= r < 0.42:
             # "twin" sequences in one stream: one configuration, mid-grey
             # pictures, one thing changed per sequence
@@ -196,6 +206,8 @@ class ByteChanSpec(Spec):
             if misframed:
                 raise W.WorkloadError("history breaks the composition rule")
             return data
+        if "gold" in case:
+            return W.gold_stream(case["gold"])
         if "tw" in case:
             return W.encode_twinseq(case["tw"]["cfg"], case["tw"]["w"])
         if "tc" in case:
@@ -214,7 +226,7 @@ class ByteChanSpec(Spec):
             return case
         r = rng.random()
         p_tr, p_fl, win = self.sweep_thorough if tier == "thorough" else self.sweep_quick
-        wide = "cfg" in case and max(case["cfg"].get("w", 0), case["cfg"].get("h", 0)) > 1000
+        wide = ("cfg" in case and max(case["cfg"].get("w", 0), case["cfg"].get("h", 0)) > 1000) or str(case.get("gold", "")).startswith("wide")
         if wide:
             # seconds per execution: no enumeration, mostly fault-free
             p_tr = p_fl = 0.0
@@ -247,7 +259,7 @@ class ByteChanSpec(Spec):
             nf = 0
         k = rng.randrange(2, 9)
         enabled = rng.sample(self.fault_kinds, min(k, len(self.fault_kinds)))
-        fmap = F.field_map(data) if ("cfg" in case or "tc" in case or "hist" in case or "tw" in case) else None
+        fmap = F.field_map(data) if ("cfg" in case or "tc" in case or "hist" in case or "tw" in case or "gold" in case) else None
         case["faults"] = F.gen_faults(rng, fmap, len(data), nf, enabled)
         return case
 
@@ -334,7 +346,7 @@ class ByteChanSpec(Spec):
     def execute(self, case):
         if "sweep" in case:
             return self.execute_sweep(case)
-        events = [("case", repr(sorted(case.get("cfg", {}).items())), case.get("raw"), case.get("tc"), repr(case.get("hist")), repr(case.get("tw")), repr(case["faults"]))]
+        events = [("case", repr(sorted(case.get("cfg", {}).items())), case.get("raw"), case.get("tc"), repr(case.get("hist")), repr(case.get("tw")), case.get("gold"), repr(case["faults"]))]
         stats = Counter()
         try:
             clean = self.source_bytes(case)
